@@ -6,7 +6,7 @@ import json, os, re
 import vlib
 from checks import common
 
-BINS = ["vh-params"]
+BINS = ["vh-params", "vh-sim"]
 PID = "C18"
 MC_CFG = common.mc_cfg(invs=("Inv", "NeverDeviates", "OrderIndependent"), props=("FailureSticky", "ReadyStable"))
 TRACE_CFG = common.trace_cfg(invs=("SoftNoDeviation", "Consistent"))
@@ -116,12 +116,29 @@ def run(tier, rep):
                        "initial_scid_from_peer_need_equal, retry_scid_from_server_need_equal, remote_ready() future under a counting waker, "
                        "negotiated_max_idle_timeout, is_0rtt_accepted); every call's Ok/Err kind and scalar state is judged by TLC against Params.tla. "
                        "distinct_nontrivial = distinct runs in which the connection became usable or the code under test failed the handshake.")
+    # the effective idle timeout of a real connection (the connection negotiates it in qbase::time::IdleConfig, not in Parameters):
+    # idle configurations enumerated by Gen_ConnLife, run on the whole stack, judged by ConnLife.tla's idle clauses
+    _idle_part(rep)
     rep.cov["exhaustive"] = True
     rep.assumptions += [
         "parameter blobs are well-formed TLV (exact varint lengths, 16-byte tokens, connection ids of at most 20 bytes): malformed blobs belong to C03",
         "an Err returned by parse_from_bytes / recv_remote_params / initial_scid_from_peer_need_equal becomes the connection error (the harness calls ArcParameters::on_conn_error with it, as the connection does)",
         "numeric values are the 24 boundary points of Params.tla!Pts; only their order enters the specification",
         "the TLS-level half of the 0-RTT decision (HandshakeKind::Resumed) is outside the component"]
+
+
+def _idle_part(rep):
+    from checks import sim, c17
+    scs = []
+    i = 0
+    for ic, isv in ((600, 600), (600, 1500), (1500, 600), (1500, 0), (0, 900), (700, 0)):
+        for parked in ("none",):
+            c = {"who": "none", "at": 0, "parked": parked, "loss": "none", "idle_cli": ic, "idle_srv": isv}
+            sc = c17.scenario(vlib.seed() * 1000 + i, c)
+            scs.append(sc)
+            i += 1
+    trace, _ = sim.run_sim("C18", "idle", scs, nproc=min(len(scs), 8))
+    sim.validate(rep, "C18", "ConnLife", "Trace_ConnLife", c17.TRACE_CFG, trace, "effective-idle-timeout", lambda l: '"lingers":true' in l)
 
 
 def _ops(trace):
@@ -140,6 +157,16 @@ def _ops(trace):
 
 
 def replay(path):
+    v0 = json.load(open(path))
+    if v0["payload"].get("component") == "ConnLife":
+        from checks import sim, c17
+        trace, _ = sim.run_sim("C18", "replay", [v0["payload"]["scenario"]], nproc=1)
+        r = vlib.validate_traces("C18", "Trace_ConnLife", c17.TRACE_CFG, trace, nchunks=1)
+        if r["rejected"]:
+            print("VIOLATION property=C18 replay=%s" % path)
+            return 1
+        print("not reproduced on the current tree")
+        return 0
     v = json.load(open(path))
     wd = vlib.workdir(PID)
     ops = _ops(v["payload"]["trace"])
